@@ -374,4 +374,166 @@ example : view (do let x ← fuseCore exB [[0, 1]] .insert; unfuseAllA x)
             ([(0, 0), (1, 0), (0, 0), (1, 0)], [1, 1, 1, 1], [0]), ([(1, 0), (0, 0), (0, 0), (1, 0)], [1, 1, 1, 1], [9])] := by
   decide +kernel
 
+/-! ## 6. both strategies give identical results -/
+
+/-
+  Full statement (several groups), not proved: the same with `groups` in place of `[gaxes]`.
+  Missing for the general case: the recursion of `recurseConcat` over several groups (nested
+  concatenations along different axes) against the multi-axis regions of the insert strategy.
+-/
+
+/-- **insert = concat, one group.**  Both strategies succeed, produce the same indices and the
+    same set of (distinct) sectors, and for every sector blocks of the same shape with the same
+    entries — in fact equal blocks (only the dict order of the blocks may differ). -/
+theorem fuseInsert_eq_fuseConcat_partial {R : Type} [Zero R] (a : Arr R) (gaxes : List Nat)
+    (hv : a.validB = true) (hg : groupsOkB [gaxes] a.ndim = true) (hlen : gaxes.length ≠ 1) :
+    ∃ x y, fuseCore a [gaxes] .insert = .ok x ∧ fuseCore a [gaxes] .concat = .ok y
+      ∧ x.indices = y.indices
+      ∧ (x.blocks.map (·.1)).Nodup ∧ (y.blocks.map (·.1)).Nodup
+      ∧ ∀ ns, (alookup x.blocks ns = none ∧ alookup y.blocks ns = none)
+          ∨ ∃ B C, alookup x.blocks ns = some B ∧ alookup y.blocks ns = some C
+              ∧ B.shape = C.shape ∧ (∀ i, inBox B.shape i = true → B.get i = C.get i) ∧ B = C := by
+  have hva := validArr_of_validB hv
+  have hok := groupsOk_iff.1 hg
+  exact ⟨_, _, fuseCore_one_eq hva hok hlen, fuseCore_one_concat_eq hva hok hlen, rfl,
+    (fusedBlocks_inv hva hok hlen).nodup, concatBlocks_nodup hva hok,
+    fun ns => insert_eq_concat hva hok hlen ns⟩
+
+set_option synthInstance.maxSize 1024 in
+example : view (fuseCore exA [[2, 0]] .insert) = view (fuseCore exA [[2, 0]] .concat)
+    ∧ view (fuseCore exA [[0], [1, 2]] .insert) = view (fuseCore exA [[0], [1, 2]] .concat)
+    ∧ view (fuseCore exB [[0, 1]] .concat)
+        = some [([(1, 0), (1, 0), (0, 0)], [2, 1, 1], [7, 0]), ([(1, 0), (0, 0), (1, 0)], [2, 1, 1], [0, 9])] := by
+  decide +kernel
+
+/-! ## 7. the property proper: every element appears exactly once, where the table says -/
+
+/-
+  Full statement (several groups), not proved: `splitAddr` is applied on every fused axis
+  `position + g` of a multi-axis group.  Proved for ONE multi-axis group, both strategies,
+  non-fermionic arrays (`fuseCore` is the abelian layer: it does not re-key pending signs).
+-/
+
+/-- the address map is injective: an address (sub-charges, sub-offsets) comes from at most one
+    (fused charge, offset) — for ANY well-formed index -/
+theorem splitAddr_injective (sym : Sym) (ix : Index) (hw : Index.wfB sym ix = true)
+    (c c' : Charge) (o o' : Nat) (ss : Sector) (offs : List Nat)
+    (h : splitAddr ix c o = some (ss, offs)) (h' : splitAddr ix c' o' = some (ss, offs)) :
+    c = c' ∧ o = o' := by
+  obtain ⟨hj, subs, exts, shp, hs, _, _, hc⟩ := joinAddr_splitAddr hw h
+  obtain ⟨hj', subs', exts', shp', hs', _, _, hc'⟩ := joinAddr_splitAddr hw h'
+  rw [hs] at hs'
+  simp only [Option.some.injEq, Prod.mk.injEq] at hs'
+  obtain ⟨rfl, rfl⟩ := hs'
+  have hcc : c = c' := by rw [← hc, ← hc']
+  subst hcc
+  rw [hj] at hj'
+  exact ⟨rfl, by simpa using hj'⟩
+
+/-- **fuse_elem, one group.**  For every block `(ns, B)` of the fused array and every offset
+    vector `i` in its box, `splitAddr` — read ONLY from the fused index's own table — turns the
+    fused charge and offset into sub-charges `ss` and sub-offsets; the element stored there is the
+    element of the original at the address `(s, offs)` obtained by expanding the fused axis
+    (`replaceWithSeq`) and un-permuting (`permuted · perm` is the inverse direction). -/
+theorem fuse_elem_partial {R : Type} [Zero R] [Neg R] (a : Arr R) (gaxes : List Nat) (mode : FuseMode)
+    (hv : a.validB = true) (hg : groupsOkB [gaxes] a.ndim = true) (hlen : gaxes.length ≠ 1)
+    (hnf : a.fermi = false) :
+    let gi := calcFuseGroupInfo [gaxes] a.duals
+    ∃ x, fuseCore a [gaxes] mode = .ok x ∧
+      ∀ ns B, alookup x.blocks ns = some B → ∀ i, inBox B.shape i = true →
+        ∃ ss suboffs,
+          splitAddr (x.indices.getD gi.position default) (ns.getD gi.position (0, 0)) (i.getD gi.position 0)
+            = some (ss, suboffs)
+          ∧ ∀ s offs, s.length = a.ndim → offs.length = a.ndim →
+              permuted s gi.perm = replaceWithSeq ns gi.position ss →
+              permuted offs gi.perm = replaceWithSeq i gi.position suboffs →
+              x.elem ns i = a.elem s offs := by
+  have hva := validArr_of_validB hv
+  have hok := groupsOk_iff.1 hg
+  have hph : a.phases = [] := by
+    simp only [Arr.validB, hnf, Bool.false_eq_true, if_false, Bool.and_eq_true, List.isEmpty_iff] at hv
+    exact hv.2.1
+  have helem : ∀ s offs, a.elem s offs = (match alookup a.blocks s with
+      | some b => b.get offs
+      | none => 0) := by
+    intro s offs
+    simp only [Arr.elem, hph, alookup]
+    cases alookup a.blocks s <;> simp
+  -- the statement for the blocks of the insert strategy
+  have hins : ∀ ns B, alookup (fusedBlocks a gaxes) ns = some B → ∀ i, inBox B.shape i = true →
+      ∃ ss suboffs, splitAddr (fix1 a gaxes) (ns.getD (gi1 a gaxes).position (0, 0))
+          (i.getD (gi1 a gaxes).position 0) = some (ss, suboffs)
+        ∧ ∀ s offs, s.length = a.ndim → offs.length = a.ndim →
+            permuted s (gi1 a gaxes).perm = replaceWithSeq ns (gi1 a gaxes).position ss →
+            permuted offs (gi1 a gaxes).perm = replaceWithSeq i (gi1 a gaxes).position suboffs →
+            B.get i = a.elem s offs := by
+    intro ns B hB i hi
+    obtain ⟨ss, suboffs, h1, h2⟩ := fused_get hva hok hlen hB hi
+    exact ⟨ss, suboffs, h1, fun s offs hs ho hK hJ => by rw [helem]; exact h2 s offs hs ho hK hJ⟩
+  cases mode with
+  | insert =>
+    refine ⟨_, fuseCore_one_eq hva hok hlen, ?_⟩
+    intro ns B hB i hi
+    have hB' : alookup (fusedBlocks a gaxes) ns = some B := hB
+    obtain ⟨ss, suboffs, h1, h2⟩ := hins ns B hB' i hi
+    refine ⟨ss, suboffs, ?_, ?_⟩
+    · show splitAddr ((newIndices1 a gaxes).getD _ default) _ _ = _
+      rw [newIndices1_getD_pos hok]; exact h1
+    · intro s offs hs ho hK hJ
+      rw [← h2 s offs hs ho hK hJ]
+      show (fusedArr a gaxes).elem ns i = _
+      simp only [Arr.elem, fusedArr, hB', hph, alookup]
+      simp
+  | concat =>
+    refine ⟨_, fuseCore_one_concat_eq hva hok hlen, ?_⟩
+    intro ns C hC i hi
+    have hC' : alookup (concatBlocks a gaxes) ns = some C := hC
+    rcases insert_eq_concat hva hok hlen ns with ⟨_, hnone⟩ | ⟨B, C', hB, hC'', hsh, hget, _⟩
+    · rw [hnone] at hC'; cases hC'
+    · rw [hC'] at hC''
+      simp only [Option.some.injEq] at hC''; subst hC''
+      obtain ⟨ss, suboffs, h1, h2⟩ := hins ns B hB i (by rw [hsh]; exact hi)
+      refine ⟨ss, suboffs, ?_, ?_⟩
+      · show splitAddr ((newIndices1 a gaxes).getD _ default) _ _ = _
+        rw [newIndices1_getD_pos hok]; exact h1
+      · intro s offs hs ho hK hJ
+        rw [← h2 s offs hs ho hK hJ, hget i (by rw [hsh]; exact hi)]
+        show (fusedArrC a gaxes).elem ns i = _
+        simp only [Arr.elem, fusedArrC, hC', hph, alookup]
+        simp
+
+/-- **onto**: every stored address `(s, offs)` of the original is the image of an address of the
+    fused array (so, with `fuse_elem_partial` and `splitAddr_injective`, the map is a bijection
+    between stored addresses and the original's stored addresses are all present, once). -/
+theorem fuse_elem_onto_partial {R : Type} [Zero R] (a : Arr R) (gaxes : List Nat)
+    (hv : a.validB = true) (hg : groupsOkB [gaxes] a.ndim = true) (hlen : gaxes.length ≠ 1) :
+    let gi := calcFuseGroupInfo [gaxes] a.duals
+    ∃ x, fuseCore a [gaxes] .insert = .ok x ∧
+      ∀ s b, (s, b) ∈ a.blocks → ∀ offs, inBox b.shape offs = true →
+        ∃ ns B i ss suboffs, alookup x.blocks ns = some B ∧ inBox B.shape i = true
+          ∧ splitAddr (x.indices.getD gi.position default) (ns.getD gi.position (0, 0)) (i.getD gi.position 0)
+              = some (ss, suboffs)
+          ∧ permuted s gi.perm = replaceWithSeq ns gi.position ss
+          ∧ permuted offs gi.perm = replaceWithSeq i gi.position suboffs := by
+  have hva := validArr_of_validB hv
+  have hok := groupsOk_iff.1 hg
+  refine ⟨_, fuseCore_one_eq hva hok hlen, ?_⟩
+  intro s b hsb offs ho
+  obtain ⟨B, i, h1, h2, h3, h4, h5⟩ := fused_onto hva hok hlen hsb ho
+  refine ⟨_, B, i, _, _, h1, h2, ?_, h4, h5⟩
+  show splitAddr ((newIndices1 a gaxes).getD _ default) _ _ = _
+  rw [newIndices1_getD_pos hok]; exact h3
+
+/-- element view of a result at an address -/
+def elemAt (r : Except Err (Arr Int)) (ns : Sector) (i : List Nat) : Int :=
+  match r with
+  | .ok x => x.elem ns i
+  | .error _ => 0
+
+/-- `exA.fuse((1,2))`: the entry of the fused block at fused offset 2 is the entry of the original
+    block of sector (0,1,1) at offsets (·,1,0) -/
+example : elemAt (fuseCore exA [[0], [1, 2]] .insert) [(0, 0), (0, 0)] [1, 2] = exA.elem [(0, 0), (1, 0), (1, 0)] [1, 1, 0]
+    ∧ elemAt (fuseCore exA [[0], [1, 2]] .concat) [(0, 0), (0, 0)] [1, 2] = 6 := by
+  decide +kernel
+
 end SymmModel.C05
